@@ -15,6 +15,15 @@ from . import driver, gens, impl
 from .core import REPO, digest
 
 
+class EnoughFailures(Exception):
+    """raised when a run has already collected plenty of failing inputs: no need to go on
+    (a badly broken tree can also make the remaining cases very slow)"""
+
+    def __init__(self, result):
+        super().__init__("enough failures")
+        self.result = result
+
+
 @dataclass
 class Result:
     evaluations: int = 0
@@ -34,6 +43,8 @@ class Result:
         if len(self.failures) < 50:
             self.failures.append({"stream": stream, "input": case, "impl": impl_out, "expected": expected, "what": what})
         self.stats["failures"] += 1
+        if self.stats["failures"] >= 60:
+            raise EnoughFailures(self)
 
     def merge(self, other: "Result"):
         self.evaluations += other.evaluations
@@ -102,15 +113,17 @@ def doc_mix(rng: random.Random, n: int, noisy=0.3, mutated=0.3):
 # ---------------------------------------------------------------- parse stream
 
 def parse_stream(docs, project, stream="parse", modes=(False, True), dialects=("en",), known=None,
-                 nontrivial=lambda i: True) -> Result:
+                 nontrivial=lambda i: True, shared=True) -> Result:
     """impl.parse vs model parse under `project(outcome) -> comparable`."""
     res = Result()
+    hist = {}
     cases = []
     for src in docs:
         for stop in modes:
             for dd in dialects:
                 cases.append((src, stop, dd))
     outs = driver.batch([driver.request("parse", stop, dd, 0, src) for src, stop, dd in cases])
+    shared_p, shared_m = {}, {}
     for (src, stop, dd), m in zip(cases, outs):
         case = {"source": src, "stop": stop, "default_dialect": dd}
         if impl.is_existing_path(src):
@@ -124,6 +137,21 @@ def parse_stream(docs, project, stream="parse", modes=(False, True), dialects=("
         pi, pm = project(i), project(m)
         if pi != pm:
             res.fail(stream, case, pi, pm, first_diff(pi, pm))
+            continue
+        # the same document through ONE long-lived Parser and TokenMatcher (per default dialect):
+        # the result must not depend on what they parsed before
+        if shared:
+            sp = shared_p.get(dd)
+            if sp is None:
+                sp = shared_p[dd] = impl.Parser(impl.RecordingBuilder(impl.id_gen(0)))
+                shared_m[dd] = impl.CountingMatcher(dd)
+                hist[dd] = []
+            i2 = impl.parse(src, stop, dd, parser=sp, matcher=shared_m[dd], fresh_ids=True)
+            p2 = project(i2)
+            if p2 != pm:
+                res.fail("history", {**case, "earlier_documents_through_same_parser_and_matcher": hist[dd][-3:]}, p2, pm,
+                         "result differs when the Parser/TokenMatcher have been used before: " + str(first_diff(p2, pm)))
+            hist[dd].append(src)
     return res
 
 
